@@ -69,26 +69,28 @@ Inductive wf_doc : gv -> Prop :=
     wf_doc (VMap kt vt false kvs)
 | wf_struct fs (Hfs : Forall (fun f => wf_doc (snd f)) fs) : wf_doc (VStruct fs).
 
-(** The one shape on which the evaluator and the specification part ways (see
-    [C01_dec_headed_counterexample]): an array whose FIRST element is a number
-    and which also holds an object having the key.  [regular v ks]: no such
-    array is met while [ks] is followed from [v]. *)
-Definition has_field (k : str) (v : jv) : bool :=
-  match field_of k v with Some _ => true | None => false end.
+(** Exactly what encoding/json decodes into an [any]: a special case. *)
+Inductive json_carrier : gv -> Prop :=
+| jc_null : json_carrier VNil
+| jc_bool b : json_carrier (VBool false b)
+| jc_num d : json_carrier (VFloat false false (FFin d))
+| jc_str s (Hs : dec_of_string s = None) : json_carrier (VStr false s)
+| jc_arr xs (Hxs : Forall json_carrier xs) : json_carrier (VSlice EAny false xs)
+| jc_obj kvs
+    (Hkvs : Forall (fun kv => (exists k, fst kv = VStr false k) /\ json_carrier (snd kv)) kvs) :
+    json_carrier (VMap KtStr EAny false kvs).
 
-Definition num_headed_mix (k : str) (v : jv) : bool :=
-  match v with
-  | JArr (JNum _ :: xs) => existsb (has_field k) xs
-  | _ => false
-  end.
-
-Fixpoint regular (v : jv) (ks : list str) : Prop :=
-  match ks with
-  | [] => True
-  | k :: rest =>
-      num_headed_mix k v = false /\
-      match lookup1 k v with Found v' => regular v' rest | _ => True end
-  end.
+Lemma json_carrier_wf : forall g, json_carrier g -> wf_doc g.
+Proof.
+  fix IH 2. intros g H. destruct H as [|b|d|s Hs|xs Hxs|kvs Hkvs].
+  - constructor.
+  - constructor.
+  - constructor.
+  - constructor; exact Hs.
+  - constructor. induction Hxs as [|x r Hx Hr IHr]; constructor; [exact (IH x Hx) | exact IHr].
+  - constructor. induction Hkvs as [|kv r [Hk Hv] Hr IHr]; constructor;
+      [split; [exact Hk | exact (IH _ Hv)] | exact IHr].
+Qed.
 
 (** * Statement vocabulary *)
 Definition key_path (ks : list str) : node :=
@@ -274,13 +276,17 @@ Definition project (t : ety) (xs : list gv) : outcome gv :=
   match xs with
   | [] => Err EKeyNotFound
   | x0 :: _ =>
-    match rkind (deref1 (slot t x0)) with
-    | KdStruct | KdMap =>
-      match filter_map (fun x => get_field_by_name k' (slot t x)) xs with
-      | [] => Err EKeyNotFound
-      | slc => Ok (VSlice EAny false slc)
+    match rv_v (deref1 (slot t x0)) with
+    | VDec _ => Err EKeyNotFound
+    | _ =>
+      match rkind (deref1 (slot t x0)) with
+      | KdStruct | KdMap =>
+        match filter_map (fun x => get_field_by_name k' (slot t x)) xs with
+        | [] => Err EKeyNotFound
+        | slc => Ok (VSlice EAny false slc)
+        end
+      | _ => Err EKeyNotFound
       end
-    | _ => Err EKeyNotFound
     end
   end.
 
@@ -297,13 +303,14 @@ Proof.
   destruct k0; reflexivity.
 Qed.
 
-Lemma collect_none xs :
-  existsb (has_field k) xs = false -> collect (field_of k) xs = [].
+Lemma slot_val t x : not_ptr x -> rv_v (deref1 (slot t x)) = x.
 Proof.
-  induction xs as [|x r IH]; [reflexivity|]. cbn [existsb collect]. unfold has_field at 1.
-  destruct (field_of k x); cbn [orb]; [discriminate | exact IH].
+  intros Hx. unfold slot. destruct (ety_eqb t EAny); [reflexivity|].
+  destruct x; try reflexivity; try (destruct Hx).
+  destruct k0; reflexivity.
 Qed.
 
+(** what one step must establish: the specified answer and a well-formed result *)
 Definition step_ok (d : gv) (o : outcome gv) : Prop :=
   match o with
   | Ok v => lookup1 k (abs d) = Found (abs v) /\ wf_doc v
@@ -314,19 +321,15 @@ Definition step_ok (d : gv) (o : outcome gv) : Prop :=
 Lemma project_spec t xs (d : gv) :
   abs d = JArr (map abs xs) ->
   Forall wf_doc xs ->
-  num_headed_mix k (JArr (map abs xs)) = false ->
   step_ok d (project t xs).
 Proof.
-  intros Hd Hxs Hmix. unfold step_ok. rewrite Hd. clear Hd d.
+  intros Hd Hxs. unfold step_ok. rewrite Hd.
   destruct xs as [|x0 r]; [reflexivity|].
   destruct (filter_map_spec t (x0 :: r) Hxs) as [Ha Hw].
   inversion Hxs as [|x0' r' Hx0 Hr]; subst.
-  unfold project. rewrite (slot_kind t x0 (wf_not_ptr x0 Hx0)).
+  unfold project.
+  rewrite (slot_kind t x0 (wf_not_ptr x0 Hx0)), (slot_val t x0 (wf_not_ptr x0 Hx0)).
   destruct Hx0; try (destruct k0); try reflexivity.
-  - (* a decimal first: the evaluator goes on, the hypothesis says it finds nothing *)
-    cbn [kind_of]. cbn [map abs num_headed_mix] in Hmix.
-    cbn [map abs collect field_of] in Ha. rewrite (collect_none _ Hmix) in Ha.
-    destruct (filter_map (fun x => get_field_by_name k' (slot t x)) (VDec d :: r)); [reflexivity | discriminate Ha].
   - cbn [kind_of]. cbn [map] in Ha |- *. rewrite abs_map in Ha |- *. cbn [lookup1]. rewrite <- Ha.
     destruct (filter_map (fun x => get_field_by_name k' (slot t x)) (VMap kt vt false kvs :: r)) as [|y ys];
       [reflexivity | split; [reflexivity | constructor; exact Hw]].
@@ -351,15 +354,15 @@ Qed.
 
 (** the step: one key of the query on one well-formed, non-null value *)
 Lemma do_ident_spec d :
-  wf_doc d -> d <> VNil -> num_headed_mix k (abs d) = false -> step_ok d (do_ident k' d).
+  wf_doc d -> d <> VNil -> step_ok d (do_ident k' d).
 Proof.
-  intros Hd Hnn Hmix.
+  intros Hd Hnn.
   destruct d;
     try (destruct (scalar_spec _ Hd Hnn I) as [Hm Hs]; unfold step_ok; rewrite Hm; exact Hs).
   - inversion Hd as [| | | | | |t0 xs0 Hxs| | |]; subst.
-    rewrite do_ident_slice. apply project_spec; [reflexivity | exact Hxs | exact Hmix].
+    rewrite do_ident_slice. apply project_spec; [reflexivity | exact Hxs].
   - inversion Hd as [| | | | | | |t0 xs0 Hxs| |]; subst.
-    rewrite do_ident_array. apply project_spec; [reflexivity | exact Hxs | exact Hmix].
+    rewrite do_ident_array. apply project_spec; [reflexivity | exact Hxs].
   - inversion Hd as [| | | | | | | |kt0 vt0 kvs0 Hkvs|]; subst.
     unfold step_ok. rewrite abs_map. cbn [lookup1].
     change (do_ident k' (VMap kt vt false kvs)) with
@@ -378,3 +381,463 @@ Proof.
     rewrite Hf, Ha. split; [reflexivity | exact Hw].
 Qed.
 End OneKey.
+
+(** * A path of keys *)
+Definition key_ops (ks : list str) : list pathop := map (fun k => PIdent k false k) ks.
+
+Section Path.
+Variable ev : pathop -> gv -> outcome gv.
+Hypothesis Hev : forall name us d, ev (PIdent name false us) d = do_ident name d.
+
+Lemma path_ops_keys : forall ks' ks,
+  Forall2 fold_eq ks' ks ->
+  forall prev d, wf_doc d -> d <> VNil ->
+  proj (path_ops ev prev false (key_ops ks') d None) = Some (lookup (abs d) ks).
+Proof.
+  induction 1 as [|k' k ks' ks Hk Hrest IH]; intros prev d Hd Hnn; [reflexivity|].
+  cbn [key_ops map path_ops lookup]. fold (key_ops ks').
+  replace (match prev with Some p => false && negb (pathop_qmark p) && negb (pathop_is_func (PIdent k' false k')) | None => false end)
+    with false by (destruct prev; reflexivity).
+  rewrite Hev.
+  pose proof (do_ident_spec k' k Hk d Hd Hnn) as Hs. unfold step_ok in Hs.
+  destruct (do_ident k' d) as [v|e|m| |w]; try contradiction.
+  - destruct Hs as [Hl Hv]. rewrite Hl. cbn [orb].
+    destruct (is_nil v) eqn:En.
+    + apply (is_nil_wf v Hv) in En. subst v.
+      destruct Hrest as [|k2' k2 r' r Hk2 Hr]; reflexivity.
+    + apply IH; [exact Hv | intros Heq; subst v; discriminate En].
+  - destruct e as [|tag]; [|contradiction]. cbn [pathop_qmark]. rewrite Hs. reflexivity.
+Qed.
+End Path.
+
+(** * Main theorems *)
+Section C01.
+Variable uni : uclass.
+Variable eng : engines.
+
+Theorem C01_lookup_refines : forall g ks ks' fuel,
+  wf_doc g -> g <> VNil ->
+  Forall2 fold_eq ks' ks -> ks <> [] -> (2 <= fuel)%nat ->
+  proj (eval uni eng fuel (key_path ks') g g) = Some (lookup (abs g) ks).
+Proof.
+  intros g ks ks' fuel Hg Hnn Hks Hne Hfuel.
+  destruct fuel as [|[|f]]; [lia | lia |].
+  destruct Hks as [|k' k r' r Hk Hr]; [contradiction Hne; reflexivity|].
+  unfold key_path. cbn [eval map andb].
+  apply (path_ops_keys (fun o d => eval uni eng (S f) (NOp o) d g)) with (ks' := k' :: r') (ks := k :: r).
+  - intros name us d. reflexivity.
+  - constructor; assumption.
+  - exact Hg.
+  - exact Hnn.
+Qed.
+
+(** "it never returns a different field's value or an invented one" *)
+Theorem C01_no_invented_value : forall g ks ks' fuel v,
+  wf_doc g -> g <> VNil ->
+  Forall2 fold_eq ks' ks -> ks <> [] -> (2 <= fuel)%nat ->
+  eval uni eng fuel (key_path ks') g g = Ok v ->
+  lookup (abs g) ks = Found (abs v).
+Proof.
+  intros g ks ks' fuel v Hg Hnn Hks Hne Hfuel Hev.
+  pose proof (C01_lookup_refines g ks ks' fuel Hg Hnn Hks Hne Hfuel) as H.
+  rewrite Hev in H. cbn [proj] in H. injection H as H. symmetry. exact H.
+Qed.
+
+(** "if a key on the way does not exist the call returns no value and ErrKeyNotFound" *)
+Theorem C01_key_not_found : forall g ks ks' fuel,
+  wf_doc g -> g <> VNil ->
+  Forall2 fold_eq ks' ks -> ks <> [] -> (2 <= fuel)%nat ->
+  lookup (abs g) ks = KeyNotFound ->
+  eval uni eng fuel (key_path ks') g g = Err EKeyNotFound.
+Proof.
+  intros g ks ks' fuel Hg Hnn Hks Hne Hfuel Hl.
+  pose proof (C01_lookup_refines g ks ks' fuel Hg Hnn Hks Hne Hfuel) as H.
+  rewrite Hl in H.
+  destruct (eval uni eng fuel (key_path ks') g g) as [v|[|tag]|m| |w]; cbn [proj] in H;
+    try discriminate H; reflexivity.
+Qed.
+
+(** and conversely: ErrKeyNotFound only for a missing key, a value only when
+    every key exists, any other error only for a null met on the way *)
+Theorem C01_outcomes : forall g ks ks' fuel,
+  wf_doc g -> g <> VNil ->
+  Forall2 fold_eq ks' ks -> ks <> [] -> (2 <= fuel)%nat ->
+  match lookup (abs g) ks with
+  | Found x => exists v, eval uni eng fuel (key_path ks') g g = Ok v /\ abs v = x
+  | KeyNotFound => eval uni eng fuel (key_path ks') g g = Err EKeyNotFound
+  | OnNull => exists tag, eval uni eng fuel (key_path ks') g g = Err (EOther tag)
+  end.
+Proof.
+  intros g ks ks' fuel Hg Hnn Hks Hne Hfuel.
+  pose proof (C01_lookup_refines g ks ks' fuel Hg Hnn Hks Hne Hfuel) as H.
+  destruct (eval uni eng fuel (key_path ks') g g) as [v|[|tag]|m| |w]; cbn [proj] in H;
+    try discriminate H; injection H as H; rewrite <- H; eauto.
+Qed.
+
+(** In particular for whatever json.Unmarshal puts into an [any]. *)
+Corollary C01_lookup_refines_decoded : forall g ks ks' fuel,
+  json_carrier g -> g <> VNil ->
+  Forall2 fold_eq ks' ks -> ks <> [] -> (2 <= fuel)%nat ->
+  proj (eval uni eng fuel (key_path ks') g g) = Some (lookup (abs g) ks).
+Proof.
+  intros g ks ks' fuel Hj. apply C01_lookup_refines. exact (json_carrier_wf g Hj).
+Qed.
+
+Corollary C01_single_key : forall g k k' fuel,
+  wf_doc g -> g <> VNil -> equal_fold k' k = true -> (2 <= fuel)%nat ->
+  proj (eval uni eng fuel (key_path [k']) g g) = Some (lookup1 k (abs g)).
+Proof.
+  intros g k k' fuel Hg Hnn Hk Hfuel.
+  rewrite (C01_lookup_refines g [k] [k'] fuel Hg Hnn); try assumption.
+  - cbn [lookup]. destruct (lookup1 k (abs g)); reflexivity.
+  - constructor; [exact Hk | constructor].
+  - discriminate.
+Qed.
+
+(** ** Where the evaluator leaves the specification *)
+
+(** A null ROOT: the first key reports ErrKeyNotFound, whereas a null met
+    further down reports "cannot access property of nil value" ([OnNull]). *)
+Lemma C01_root_null : forall ks' fuel,
+  ks' <> [] -> (2 <= fuel)%nat ->
+  eval uni eng fuel (key_path ks') VNil VNil = Err EKeyNotFound.
+Proof.
+  intros ks' fuel Hne Hfuel.
+  destruct fuel as [|[|f]]; [lia | lia |].
+  destruct ks' as [|k' r']; [contradiction Hne; reflexivity|].
+  reflexivity.
+Qed.
+End C01.
+
+(** A decimal.Decimal is a struct to reflect but a number to mpath: after
+    [$.items.a] has turned [1] into a decimal, [.x] on [[1, {"x":2}]] is
+    ErrKeyNotFound -- the array does not start with an object -- exactly as on
+    the same array decoded from JSON (float64 first).  (Before the repair of
+    getValuesByName the first query answered [[2]].) *)
+Definition jkey (s : string) : gv := VStr false (bs s).
+Definition jnum (z : Z) : gv := VFloat false false (FFin (mkDec z 0)).
+Definition jobj (kvs : list (gv * gv)) : gv := VMap KtStr EAny false kvs.
+Definition jarr (xs : list gv) : gv := VSlice EAny false xs.
+
+Definition mixed_doc : gv :=
+  jobj [(jkey "items", jarr [jobj [(jkey "a", jnum 1)];
+                              jobj [(jkey "a", jobj [(jkey "x", jnum 2)])]])].
+
+Example C01_decimal_headed_array :
+  json_carrier mixed_doc /\
+  eval uni_ascii no_engines 2 (key_path [bs "items"; bs "a"]) mixed_doc mixed_doc
+    = Ok (jarr [VDec (mkDec 1 0); jobj [(jkey "x", jnum 2)]]) /\
+  eval uni_ascii no_engines 2 (key_path [bs "items"; bs "a"; bs "x"]) mixed_doc mixed_doc
+    = Err EKeyNotFound /\
+  lookup (abs mixed_doc) [bs "items"; bs "a"; bs "x"] = KeyNotFound /\
+  (* the same inner array, stored rather than projected: *)
+  eval uni_ascii no_engines 2 (key_path [bs "a"; bs "x"])
+       (jobj [(jkey "a", jarr [jnum 1; jobj [(jkey "x", jnum 2)]])])
+       (jobj [(jkey "a", jarr [jnum 1; jobj [(jkey "x", jnum 2)]])])
+    = Err EKeyNotFound.
+Proof.
+  split; [repeat econstructor|].
+  repeat split; vm_compute; reflexivity.
+Qed.
+
+(** * The iteration order of a Go map does not matter *)
+Lemma field_some_in k kvs v :
+  field k kvs = Some v -> exists k0, In (k0, v) kvs /\ equal_fold k0 k = true.
+Proof.
+  induction kvs as [|[k0 v0] r IH]; cbn [field]; [discriminate|].
+  destruct (equal_fold k0 k) eqn:E.
+  - intros Heq. injection Heq as Heq. subst v0. exists k0. split; [left; reflexivity | exact E].
+  - intros Hf. destruct (IH Hf) as [k1 [Hin Hk1]]. exists k1. split; [right; exact Hin | exact Hk1].
+Qed.
+
+Lemma field_none_all k kvs :
+  field k kvs = None -> forall k0 v, In (k0, v) kvs -> equal_fold k0 k = false.
+Proof.
+  induction kvs as [|[k1 v1] r IH]; cbn [field]; intros Hf k0 v Hin; [destruct Hin|].
+  destruct (equal_fold k1 k) eqn:E; [discriminate Hf|].
+  destruct Hin as [Heq|Hin]; [inversion Heq; subst; exact E | exact (IH Hf k0 v Hin)].
+Qed.
+
+Lemma field_in_distinct k kvs k0 v :
+  keys_distinct (map fst kvs) -> In (k0, v) kvs -> equal_fold k0 k = true -> field k kvs = Some v.
+Proof.
+  induction kvs as [|[k1 v1] r IH]; cbn [map fst keys_distinct field]; intros Hd Hin Hk; [destruct Hin|].
+  destruct Hd as [Hd Hr]. destruct Hin as [Heq|Hin].
+  - inversion Heq; subst. rewrite Hk. reflexivity.
+  - destruct (equal_fold k1 k) eqn:E; [|exact (IH Hr Hin Hk)].
+    exfalso. assert (Hc : equal_fold k1 k0 = true).
+    { apply (equal_fold_trans k1 k k0 E). apply equal_fold_sym. exact Hk. }
+    rewrite (Hd k0) in Hc; [discriminate Hc|].
+    change k0 with (fst (k0, v)). apply in_map. exact Hin.
+Qed.
+
+Lemma field_perm k kvs kvs' :
+  Permutation kvs kvs' -> keys_distinct (map fst kvs) -> field k kvs = field k kvs'.
+Proof.
+  intros Hp Hd. destruct (field k kvs') as [v'|] eqn:E'.
+  - destruct (field_some_in k kvs' v' E') as [k0 [Hin Hk0]].
+    apply (field_in_distinct k kvs k0 v' Hd); [|exact Hk0].
+    apply (Permutation_in _ (Permutation_sym Hp)). exact Hin.
+  - destruct (field k kvs) as [v|] eqn:E; [|reflexivity].
+    destruct (field_some_in k kvs v E) as [k0 [Hin Hk0]].
+    rewrite (field_none_all k kvs' E' k0 v (Permutation_in _ Hp Hin)) in Hk0. discriminate Hk0.
+Qed.
+
+Theorem C01_map_order_irrelevant : forall kvs kvs' k,
+  Permutation kvs kvs' -> keys_distinct (map fst kvs) ->
+  lookup1 k (JObj kvs) = lookup1 k (JObj kvs').
+Proof.
+  intros kvs kvs' k Hp Hd. cbn [lookup1]. rewrite (field_perm k kvs kvs' Hp Hd). reflexivity.
+Qed.
+
+(** ** ... lifted to whole documents: [jperm v v'] when [v'] is [v] with the
+    fields of any of its objects, at any depth, listed in another order *)
+Inductive jperm : jv -> jv -> Prop :=
+| jp_refl v : jperm v v
+| jp_arr xs ys (Hxs : Forall2 jperm xs ys) : jperm (JArr xs) (JArr ys)
+| jp_obj kvs kvs' kvs''
+    (Hkvs : Forall2 (fun a b => fst a = fst b /\ jperm (snd a) (snd b)) kvs kvs')
+    (Hp : Permutation kvs' kvs'') : jperm (JObj kvs) (JObj kvs'').
+
+Definition lres_perm (a b : lres) : Prop :=
+  match a, b with
+  | Found x, Found y => jperm x y
+  | KeyNotFound, KeyNotFound => True
+  | OnNull, OnNull => True
+  | _, _ => False
+  end.
+
+Definition opt_perm (a b : option jv) : Prop :=
+  match a, b with Some x, Some y => jperm x y | None, None => True | _, _ => False end.
+
+Lemma fold_distinct_arr xs : fold_distinct (JArr xs) <-> Forall fold_distinct xs.
+Proof.
+  induction xs as [|x r IH]; [split; constructor|].
+  change (fold_distinct (JArr (x :: r))) with (fold_distinct x /\ fold_distinct (JArr r)).
+  split.
+  - intros [Hx Hr]. constructor; [exact Hx | apply IH; exact Hr].
+  - intros H. inversion H as [|x' r' Hx Hr]; subst. split; [exact Hx | apply IH; exact Hr].
+Qed.
+
+Definition fd_vals : list (str * jv) -> Prop :=
+  fix all (l : list (str * jv)) : Prop :=
+    match l with [] => True | (_, x) :: r => fold_distinct x /\ all r end.
+
+Lemma fd_vals_forall kvs : fd_vals kvs <-> Forall (fun kv => fold_distinct (snd kv)) kvs.
+Proof.
+  induction kvs as [|[k v] r IH]; [split; constructor|].
+  change (fd_vals ((k, v) :: r)) with (fold_distinct v /\ fd_vals r).
+  split.
+  - intros [Hx Hr]. constructor; [exact Hx | apply IH; exact Hr].
+  - intros H. inversion H as [|x' r' Hx Hr]; subst. split; [exact Hx | apply IH; exact Hr].
+Qed.
+
+Lemma fold_distinct_obj kvs :
+  fold_distinct (JObj kvs) <->
+  keys_distinct (map fst kvs) /\ Forall (fun kv => fold_distinct (snd kv)) kvs.
+Proof.
+  change (fold_distinct (JObj kvs)) with (keys_distinct (map fst kvs) /\ fd_vals kvs).
+  rewrite fd_vals_forall. reflexivity.
+Qed.
+
+Lemma field_jperm k kvs kvs' :
+  Forall2 (fun a b : str * jv => fst a = fst b /\ jperm (snd a) (snd b)) kvs kvs' ->
+  opt_perm (field k kvs) (field k kvs') /\ map fst kvs = map fst kvs'.
+Proof.
+  induction 1 as [|[ka va] [kb vb] r r' [Hk Hv] Hr [IHf IHm]]; [split; exact I || reflexivity|].
+  cbn [fst snd] in Hk, Hv. subst kb. cbn [field map fst]. rewrite IHm.
+  split; [|reflexivity]. destruct (equal_fold ka k); [exact Hv | exact IHf].
+Qed.
+
+Lemma opt_perm_refl o : opt_perm o o.
+Proof. destruct o; [apply jp_refl | exact I]. Qed.
+
+Lemma field_of_jperm k x y : fold_distinct x -> jperm x y -> opt_perm (field_of k x) (field_of k y).
+Proof.
+  intros Hd Hp. destruct Hp as [v|xs ys Hxs|kvs kvs' kvs'' Hkvs Hp].
+  - apply opt_perm_refl.
+  - exact I.
+  - cbn [field_of]. destruct (field_jperm k kvs kvs' Hkvs) as [Hf Hm].
+    apply fold_distinct_obj in Hd. destruct Hd as [Hkd _].
+    rewrite Hm in Hkd. rewrite <- (field_perm k kvs' kvs'' Hp Hkd). exact Hf.
+Qed.
+
+Lemma collect_jperm k xs ys :
+  Forall fold_distinct xs -> Forall2 jperm xs ys ->
+  Forall2 jperm (collect (field_of k) xs) (collect (field_of k) ys).
+Proof.
+  intros Hd Hp. induction Hp as [|x y r r' Hxy Hr IH]; [constructor|].
+  inversion Hd as [|x' r0 Hx Hr0]; subst. cbn [collect].
+  pose proof (field_of_jperm k x y Hx Hxy) as Hf. unfold opt_perm in Hf.
+  destruct (field_of k x), (field_of k y); try contradiction.
+  - constructor; [exact Hf | exact (IH Hr0)].
+  - exact (IH Hr0).
+Qed.
+
+Lemma lres_perm_refl r : lres_perm r r.
+Proof. destruct r; [apply jp_refl | exact I | exact I]. Qed.
+
+Lemma jperm_obj_l kvs y : jperm (JObj kvs) y -> exists kvs', y = JObj kvs'.
+Proof. intros H. inversion H; subst; eauto. Qed.
+
+Lemma jperm_obj_r x kvs : jperm x (JObj kvs) -> exists kvs', x = JObj kvs'.
+Proof. intros H. inversion H; subst; eauto. Qed.
+
+Lemma lookup1_jperm k x y : fold_distinct x -> jperm x y -> lres_perm (lookup1 k x) (lookup1 k y).
+Proof.
+  intros Hd Hp. pose proof Hp as Hp0. destruct Hp as [v|xs ys Hxs|kvs kvs' kvs'' Hkvs Hp].
+  - apply lres_perm_refl.
+  - apply fold_distinct_arr in Hd.
+    pose proof (collect_jperm k xs ys Hd Hxs) as Hc.
+    destruct Hxs as [|x0 y0 r r' H0 Hr]; [exact I|].
+    destruct x0 as [| | | | |kvs0].
+    6:{ destruct (jperm_obj_l kvs0 y0 H0) as [kvs1 Hy]. subst y0. cbn [lookup1].
+        destruct Hc as [|a b cs cs' Hab Hcs]; [exact I|].
+        cbn [lres_perm]. apply jp_arr. constructor; assumption. }
+    all: destruct y0 as [| | | | |kvs1]; try exact I;
+      destruct (jperm_obj_r _ kvs1 H0) as [kvs2 Hx]; discriminate Hx.
+  - pose proof (field_of_jperm k (JObj kvs) (JObj kvs'') Hd Hp0) as Hf.
+    cbn [field_of] in Hf. cbn [lookup1]. unfold opt_perm in Hf.
+    destruct (field k kvs), (field k kvs''); try contradiction; exact Hf.
+Qed.
+
+Lemma field_distinct k kvs v :
+  Forall (fun kv : str * jv => fold_distinct (snd kv)) kvs -> field k kvs = Some v -> fold_distinct v.
+Proof.
+  intros Hall Hf. destruct (field_some_in k kvs v Hf) as [k0 [Hin _]].
+  rewrite Forall_forall in Hall. exact (Hall (k0, v) Hin).
+Qed.
+
+Lemma collect_distinct k xs :
+  Forall fold_distinct xs -> Forall fold_distinct (collect (field_of k) xs).
+Proof.
+  induction 1 as [|x r Hx Hr IH]; [constructor|]. cbn [collect].
+  destruct (field_of k x) as [y|] eqn:E; [|exact IH].
+  constructor; [|exact IH].
+  destruct x; try discriminate E. cbn [field_of] in E.
+  apply fold_distinct_obj in Hx. destruct Hx as [_ Hv]. exact (field_distinct k kvs y Hv E).
+Qed.
+
+Lemma lookup1_distinct k x x' : fold_distinct x -> lookup1 k x = Found x' -> fold_distinct x'.
+Proof.
+  intros Hd Hl. destruct x as [| | | |xs|kvs]; try discriminate Hl.
+  - apply fold_distinct_arr in Hd.
+    pose proof (collect_distinct k xs Hd) as Hc.
+    destruct xs as [|x0 r]; [discriminate Hl|].
+    destruct x0; try discriminate Hl. cbn [lookup1] in Hl.
+    destruct (collect (field_of k) (JObj kvs :: r)) as [|c cs]; [discriminate Hl|].
+    injection Hl as Hl. subst x'. apply fold_distinct_arr. exact Hc.
+  - cbn [lookup1] in Hl. destruct (field k kvs) as [v|] eqn:E; [|discriminate Hl].
+    injection Hl as Hl. subst x'.
+    apply fold_distinct_obj in Hd. destruct Hd as [_ Hv]. exact (field_distinct k kvs v Hv E).
+Qed.
+
+Theorem C01_map_order_irrelevant_doc : forall ks x y,
+  fold_distinct x -> jperm x y -> lres_perm (lookup x ks) (lookup y ks).
+Proof.
+  induction ks as [|k ks IH]; intros x y Hd Hp; [exact Hp|].
+  cbn [lookup].
+  pose proof (lookup1_jperm k x y Hd Hp) as H1.
+  pose proof (lookup1_distinct k x) as H2.
+  destruct (lookup1 k x) as [x'| |], (lookup1 k y) as [y'| |]; try contradiction; try exact I.
+  apply IH; [apply H2; [exact Hd | reflexivity] | exact H1].
+Qed.
+
+(** the evaluator's answers on two documents that differ only in the order
+    of object fields are equal up to that order *)
+Theorem C01_map_order_eval : forall uni eng g g' ks ks' fuel,
+  wf_doc g -> wf_doc g' -> g <> VNil -> g' <> VNil ->
+  fold_distinct (abs g) -> jperm (abs g) (abs g') ->
+  Forall2 fold_eq ks' ks -> ks <> [] -> (2 <= fuel)%nat ->
+  exists r r', proj (eval uni eng fuel (key_path ks') g g) = Some r /\
+               proj (eval uni eng fuel (key_path ks') g' g') = Some r' /\ lres_perm r r'.
+Proof.
+  intros uni eng g g' ks ks' fuel Hg Hg' Hnn Hnn' Hd Hp Hks Hne Hfuel.
+  exists (lookup (abs g) ks), (lookup (abs g') ks).
+  split; [apply C01_lookup_refines; assumption|].
+  split; [apply C01_lookup_refines; assumption|].
+  apply C01_map_order_irrelevant_doc; assumption.
+Qed.
+
+(** reordering the association list of a Go map is a [jperm] step *)
+Lemma abs_kvs_perm kvs kvs' : Permutation kvs kvs' -> Permutation (abs_kvs kvs) (abs_kvs kvs').
+Proof.
+  induction 1 as [|[k v] l l' Hl IH|[k1 v1] [k2 v2] l|l l' l'' H1 IH1 H2 IH2].
+  - constructor.
+  - cbn [abs_kvs]. destruct k; try exact IH. constructor. exact IH.
+  - cbn [abs_kvs]. destruct k1, k2; try apply Permutation_refl. apply perm_swap.
+  - exact (perm_trans IH1 IH2).
+Qed.
+
+Lemma jperm_fields_refl l :
+  Forall2 (fun a b : str * jv => fst a = fst b /\ jperm (snd a) (snd b)) l l.
+Proof. induction l as [|a l IH]; constructor; [split; [reflexivity | apply jp_refl] | exact IH]. Qed.
+
+Lemma jperm_map_order kt vt n kvs kvs' :
+  Permutation kvs kvs' -> jperm (abs (VMap kt vt n kvs)) (abs (VMap kt vt n kvs')).
+Proof.
+  intros Hp. rewrite !abs_map.
+  apply jp_obj with (kvs' := abs_kvs kvs); [apply jperm_fields_refl | apply abs_kvs_perm; exact Hp].
+Qed.
+
+(** * Non-vacuity: a concrete document, a path that crosses an array, other casing *)
+Definition example_doc : gv :=
+  jobj [(jkey "Items", jarr [jobj [(jkey "name", VStr false (bs "bolt")); (jkey "qty", jnum 2)];
+                             jobj [(jkey "Name", VStr false (bs "nut"))]]);
+        (jkey "gone", VNil)].
+
+Example C01_example :
+  wf_doc example_doc /\ example_doc <> VNil /\ fold_distinct (abs example_doc) /\
+  Forall2 fold_eq [bs "items"; bs "NAME"] [bs "Items"; bs "name"] /\
+  (* $.items.NAME *)
+  eval uni_ascii no_engines 2 (key_path [bs "items"; bs "NAME"]) example_doc example_doc
+    = Ok (jarr [VStr false (bs "bolt"); VStr false (bs "nut")]) /\
+  lookup (abs example_doc) [bs "Items"; bs "name"] = Found (JArr [JStr (bs "bolt"); JStr (bs "nut")]) /\
+  (* $.ITEMS.Qty: only the elements that have it; the number by value *)
+  proj (eval uni_ascii no_engines 2 (key_path [bs "ITEMS"; bs "Qty"]) example_doc example_doc)
+    = Some (Found (JArr [JNum (mkDec 2 0)])) /\
+  (* $.GONE: a stored null is a value; $.gone.x: a null on the way; $.items.price: a missing key *)
+  proj (eval uni_ascii no_engines 2 (key_path [bs "GONE"]) example_doc example_doc) = Some (Found JNull) /\
+  proj (eval uni_ascii no_engines 2 (key_path [bs "gone"; bs "x"]) example_doc example_doc) = Some OnNull /\
+  eval uni_ascii no_engines 2 (key_path [bs "items"; bs "price"]) example_doc example_doc = Err EKeyNotFound.
+Proof.
+  split; [repeat econstructor|].
+  split; [discriminate|].
+  split.
+  { cbv [example_doc abs jobj jarr jkey jnum fold_distinct keys_distinct map fst In].
+    repeat match goal with
+           | |- _ /\ _ => split
+           | |- True => exact I
+           | |- forall _, _ => intros
+           | H : _ \/ _ |- _ => destruct H
+           | H : False |- _ => destruct H
+           | H : _ = ?k |- _ => subst k
+           end; vm_compute; reflexivity. }
+  split; [repeat constructor|].
+  repeat split; vm_compute; reflexivity.
+Qed.
+
+(** the theorem applied to the example *)
+Example C01_example_by_theorem :
+  proj (eval uni_ascii no_engines default_fuel (key_path [bs "items"; bs "NAME"]) example_doc example_doc)
+  = Some (Found (JArr [JStr (bs "bolt"); JStr (bs "nut")])).
+Proof.
+  destruct C01_example as [Hwf [Hnn [_ [Hks [_ [Hl _]]]]]].
+  rewrite <- Hl. apply C01_lookup_refines; try assumption; [discriminate | unfold default_fuel; lia].
+Qed.
+
+Print Assumptions C01_lookup_refines.
+Print Assumptions C01_lookup_refines_decoded.
+Print Assumptions C01_single_key.
+Print Assumptions json_carrier_wf.
+Print Assumptions C01_no_invented_value.
+Print Assumptions C01_key_not_found.
+Print Assumptions C01_outcomes.
+Print Assumptions C01_root_null.
+Print Assumptions C01_decimal_headed_array.
+Print Assumptions C01_map_order_irrelevant.
+Print Assumptions C01_map_order_irrelevant_doc.
+Print Assumptions C01_map_order_eval.
+Print Assumptions jperm_map_order.
+Print Assumptions C01_example.
+Print Assumptions C01_example_by_theorem.
